@@ -10,7 +10,7 @@ from harness.props import c01, c01_regen
 
 
 def poison_for(rng, prog, idx):
-    kind = rng.choice(['raise', 'check', 'writer', 'raise', 'writer2'])
+    kind = rng.choice(['raise', 'check', 'writer', 'raise', 'writer2', 'optimizer'])
     p = copy.deepcopy(prog)
     p['name'] = f'poison{idx}'
     if kind == 'raise':
@@ -28,6 +28,16 @@ def poison_for(rng, prog, idx):
             for key in ('ins', 'chans', 'args'):
                 if key in e:
                     e[key] = [sh(a) for a in e[key]]
+    elif kind == 'optimizer':
+        # the failure happens inside the optimiser, after it has already removed dead code: unused
+        # arithmetic, then a dead operator chain deeper than the interpreter's recursion limit
+        base = 1 if p.get('params') else 0
+        n0 = base + len(p['events'])
+        p['events'].append({'t': 'atom', 'cls': 'SinOsc', 'ctor': 'ar', 'ins': [['n', 440, 1], ['n', 0, 1]]})
+        p['events'].append({'t': 'binop', 'sel': 'mul', 'a': ['r', n0, 0], 'b': ['n', 2, 1]})
+        p['events'].append({'t': 'atom', 'cls': 'SinOsc', 'ctor': 'ar', 'ins': [['n', 441, 1], ['n', 0, 1]]})
+        for k in range(1600):
+            p['events'].append({'t': 'unop', 'sel': 'abs' if k % 2 else 'squared', 'a': ['r', n0 + 2 + k, 0]})
     elif kind == 'check':
         p['events'].append({'t': 'atom', 'cls': 'Line', 'ctor': 'kr',
                             'ins': [['bad', 'none'], ['n', 1, 1], ['n', 1, 1], ['n', 0, 1]]})
